@@ -763,3 +763,226 @@ Section Split.
     - apply idl_split.
   Qed.
 End Split.
+
+(* ------------------------------------------------------------------ *)
+(** * C (concrete form): disjoint union of two frameworks *)
+
+Definition disjoint_union (F1 F2 : af) : af :=
+  {| args := args F1 ++ args F2; atts := atts F1 ++ atts F2 |}.
+
+Lemma NoDup_app_inv : forall (A : Type) (l1 l2 : list A),
+  NoDup (l1 ++ l2) -> NoDup l1 /\ NoDup l2 /\ forall x, In x l1 -> In x l2 -> False.
+Proof.
+  intros A l1 l2. induction l1 as [|x r IH]; cbn [app]; intros H.
+  - split; [constructor|]. split; [exact H|]. intros x [].
+  - inversion H as [|? ? Hx Hr]; subst. destruct (IH Hr) as [H1 [H2 H3]].
+    split; [|split].
+    + constructor; [|exact H1]. intros Hin. apply Hx. apply in_or_app. left. exact Hin.
+    + exact H2.
+    + intros y [Hy|Hy] Hy2.
+      * subst y. apply Hx. apply in_or_app. right. exact Hy2.
+      * exact (H3 y Hy Hy2).
+Qed.
+
+Section Union.
+  Variables F1 F2 : af.
+  Hypothesis Hwf1 : wf F1.
+  Hypothesis Hwf2 : wf F2.
+  Hypothesis Hdisj : forall a, In a (args F1) -> ~ In a (args F2).
+
+  Local Notation U := (disjoint_union F1 F2).
+
+  Lemma att_union : forall a b, att U a b <-> att F1 a b \/ att F2 a b.
+  Proof. intros a b. unfold att, disjoint_union. cbn [atts]. apply in_app_iff. Qed.
+
+  Lemma args_union : forall a, In a (args U) <-> In a (args F1) \/ In a (args F2).
+  Proof. intros a. unfold disjoint_union. cbn [args]. apply in_app_iff. Qed.
+
+  Lemma part_union_l : part U F1.
+  Proof.
+    split; [exact (proj2 Hwf1)|]. split.
+    - intros a b H. apply att_union. left. exact H.
+    - intros a b H Hin. apply att_union in H. destruct H as [H|H]; [exact H|].
+      exfalso. destruct (proj2 Hwf2 a b H) as [Ia Ib].
+      destruct Hin as [Hin|Hin]; [exact (Hdisj a Hin Ia) | exact (Hdisj b Hin Ib)].
+  Qed.
+
+  Lemma part_union_r : part U F2.
+  Proof.
+    split; [exact (proj2 Hwf2)|]. split.
+    - intros a b H. apply att_union. right. exact H.
+    - intros a b H Hin. apply att_union in H. destruct H as [H|H]; [|exact H].
+      exfalso. destruct (proj2 Hwf1 a b H) as [Ia Ib].
+      destruct Hin as [Hin|Hin]; [exact (Hdisj a Ia Hin) | exact (Hdisj b Ib Hin)].
+  Qed.
+
+  Lemma wf_union : wf U.
+  Proof.
+    split.
+    - unfold disjoint_union. cbn [args]. apply NoDup_app_intro.
+      + exact (proj1 Hwf1).
+      + exact (proj1 Hwf2).
+      + intros x H1 H2. exact (Hdisj x H1 H2).
+    - intros a b H. apply att_union in H. rewrite !args_union. destruct H as [H|H].
+      + destruct (proj2 Hwf1 a b H). split; left; assumption.
+      + destruct (proj2 Hwf2 a b H). split; right; assumption.
+  Qed.
+
+  Theorem ext_union : forall s S,
+    ext s U S <->
+    incl S (args F1 ++ args F2) /\ ext s F1 (restr (args F1) S) /\ ext s F2 (restr (args F2) S).
+  Proof.
+    intros s S.
+    apply (ext_split U F1 F2 part_union_l part_union_r args_union).
+    - intros a H1 H2. exact (Hdisj a H1 H2).
+    - intros a b H. apply att_union. exact H.
+  Qed.
+
+  Lemma restr_app_l : forall S1 S2, incl S1 (args F1) -> incl S2 (args F2) ->
+    seteq (restr (args F1) (S1 ++ S2)) S1.
+  Proof.
+    intros S1 S2 H1 H2 a. rewrite in_restr, in_app_iff. split.
+    - intros [Ha [H|H]]; [exact H|]. exfalso. exact (Hdisj a Ha (H2 a H)).
+    - intros H. split; [apply H1; exact H | left; exact H].
+  Qed.
+
+  Lemma restr_app_r : forall S1 S2, incl S1 (args F1) -> incl S2 (args F2) ->
+    seteq (restr (args F2) (S1 ++ S2)) S2.
+  Proof.
+    intros S1 S2 H1 H2 a. rewrite in_restr, in_app_iff. split.
+    - intros [Ha [H|H]]; [|exact H]. exfalso. exact (Hdisj a (H1 a H) Ha).
+    - intros H. split; [apply H2; exact H | right; exact H].
+  Qed.
+
+  Theorem ext_union_app : forall s S1 S2,
+    ext s F1 S1 -> ext s F2 S2 -> ext s U (S1 ++ S2).
+  Proof.
+    intros s S1 S2 H1 H2.
+    pose proof (ext_incl s F1 S1 H1) as I1. pose proof (ext_incl s F2 S2 H2) as I2.
+    apply ext_union. split; [|split].
+    - apply incl_app; [apply incl_appl | apply incl_appr]; assumption.
+    - apply (ext_seteq s F1 S1); [apply seteq_sym; apply restr_app_l; assumption | exact H1].
+    - apply (ext_seteq s F2 S2); [apply seteq_sym; apply restr_app_r; assumption | exact H2].
+  Qed.
+
+  Corollary cred_union_left : forall s A,
+    (exists S2, ext s F2 S2) -> incl A (args F1) -> (cred s U A <-> cred s F1 A).
+  Proof.
+    intros s A [S2 HS2] HA. unfold cred. split.
+    - intros [S [HS [a [HaA HaS]]]]. apply ext_union in HS. destruct HS as [_ [HS1 _]].
+      exists (restr (args F1) S). split; [exact HS1|]. exists a. split; [exact HaA|].
+      apply in_restr. split; [apply HA; exact HaA | exact HaS].
+    - intros [S1 [HS1 [a [HaA HaS]]]]. exists (S1 ++ S2).
+      split; [apply ext_union_app; assumption|]. exists a. split; [exact HaA|].
+      apply in_or_app. left. exact HaS.
+  Qed.
+
+  Corollary skep_union_left : forall s A,
+    (exists S2, ext s F2 S2) -> incl A (args F1) -> (skep s U A <-> skep s F1 A).
+  Proof.
+    intros s A [S2 HS2] HA. unfold skep. split.
+    - intros H S1 HS1. destruct (H _ (ext_union_app s S1 S2 HS1 HS2)) as [a [HaA HaS]].
+      exists a. split; [exact HaA|]. apply in_app_or in HaS. destruct HaS as [Hs|Hs]; [exact Hs|].
+      exfalso. exact (Hdisj a (HA a HaA) (ext_incl s F2 S2 HS2 a Hs)).
+    - intros H S HS. apply ext_union in HS. destruct HS as [_ [HS1 _]].
+      destruct (H _ HS1) as [a [HaA HaS]]. exists a. split; [exact HaA|].
+      apply (restr_incl_r _ _ _ HaS).
+  Qed.
+
+  (* the stable corner: a part without stable extension kills every stable extension *)
+  Corollary st_union_corner : forall A,
+    (forall S2, ~ st F2 S2) ->
+    skep ST U A /\ ~ cred ST U A.
+  Proof.
+    intros A Hno. split.
+    - intros S HS. exfalso. apply ext_union in HS. destruct HS as [_ [_ HS2]].
+      exact (Hno _ HS2).
+    - intros [S [HS _]]. apply ext_union in HS. destruct HS as [_ [_ HS2]].
+      exact (Hno _ HS2).
+  Qed.
+End Union.
+
+Lemma disjoint_union_comm_equiv : forall F1 F2,
+  af_equiv (disjoint_union F1 F2) (disjoint_union F2 F1).
+Proof.
+  intros F1 F2. split.
+  - intros a. unfold disjoint_union. cbn [args]. rewrite !in_app_iff. tauto.
+  - intros a b. unfold att, disjoint_union. cbn [atts]. rewrite !in_app_iff. tauto.
+Qed.
+
+(* ------------------------------------------------------------------ *)
+(** * C (n-ary form): disjoint union of a list of frameworks *)
+
+Definition empty_af : af := {| args := []; atts := [] |}.
+Definition big_union (Fs : list af) : af := fold_right disjoint_union empty_af Fs.
+
+Lemma args_big_union : forall Fs, args (big_union Fs) = concat (map args Fs).
+Proof.
+  induction Fs as [|F r IH]; [reflexivity|].
+  cbn [big_union fold_right map concat]. unfold disjoint_union at 1. cbn [args].
+  f_equal. exact IH.
+Qed.
+
+Lemma att_big_union : forall Fs a b,
+  att (big_union Fs) a b <-> exists F, In F Fs /\ att F a b.
+Proof.
+  induction Fs as [|F r IH]; intros a b.
+  - split; [intros [] | intros [F [[] _]]].
+  - cbn [big_union fold_right]. fold (big_union r).
+    unfold att at 1. unfold disjoint_union at 1. cbn [atts]. rewrite in_app_iff.
+    change (In (a, b) (atts (big_union r))) with (att (big_union r) a b). rewrite IH. split.
+    + intros [H|[G [HG H]]].
+      * exists F. split; [left; reflexivity | exact H].
+      * exists G. split; [right; exact HG | exact H].
+    + intros [G [[HG|HG] H]].
+      * subst G. left. exact H.
+      * right. exists G. split; assumption.
+Qed.
+
+Lemma in_concat_map_args : forall (Fs : list af) F a, In F Fs -> In a (args F) ->
+  In a (concat (map args Fs)).
+Proof.
+  intros Fs F a HF Ha. apply in_concat. exists (args F). split; [apply in_map; exact HF | exact Ha].
+Qed.
+
+Lemma wf_big_union : forall Fs,
+  (forall F, In F Fs -> wf F) -> NoDup (concat (map args Fs)) -> wf (big_union Fs).
+Proof.
+  intros Fs Hwf Hnd. split.
+  - rewrite args_big_union. exact Hnd.
+  - intros a b H. apply att_big_union in H. destruct H as [F [HF H]].
+    rewrite args_big_union. destruct (proj2 (Hwf F HF) a b H) as [Ia Ib].
+    split; apply (in_concat_map_args Fs F); assumption.
+Qed.
+
+Lemma ext_empty_nil : forall s, ext s empty_af [].
+Proof. intros s. apply extb_ext. destruct s; reflexivity. Qed.
+
+Theorem ext_big_union : forall s Fs S,
+  (forall F, In F Fs -> wf F) -> NoDup (concat (map args Fs)) ->
+  (ext s (big_union Fs) S <->
+   incl S (concat (map args Fs)) /\ forall F, In F Fs -> ext s F (restr (args F) S)).
+Proof.
+  intros s Fs. induction Fs as [|F1 r IH]; intros S Hwf Hnd.
+  - cbn [big_union fold_right map concat]. split.
+    + intros H. split; [exact (ext_incl s empty_af S H) | intros F []].
+    + intros [Hi _]. apply (ext_seteq s empty_af []); [|apply ext_empty_nil].
+      intros a. split; [intros [] | intros Ha; exact (Hi a Ha)].
+  - cbn [big_union fold_right]. fold (big_union r). cbn [map concat] in *.
+    destruct (NoDup_app_inv _ _ _ Hnd) as [_ [Hnd' Hdis]].
+    assert (Hwf1 : wf F1) by (apply Hwf; left; reflexivity).
+    assert (Hwfr : forall F, In F r -> wf F) by (intros F HF; apply Hwf; right; exact HF).
+    assert (Hwf2 : wf (big_union r)) by (apply wf_big_union; assumption).
+    assert (Hd : forall a, In a (args F1) -> ~ In a (args (big_union r))).
+    { intros a H1 H2. rewrite args_big_union in H2. exact (Hdis a H1 H2). }
+    rewrite (ext_union F1 (big_union r) Hwf1 Hwf2 Hd s S).
+    rewrite (IH (restr (args (big_union r)) S) Hwfr Hnd'). rewrite args_big_union. split.
+    + intros [Hi [H1 [_ Hr]]]. split; [exact Hi|]. intros F [HF|HF].
+      * subst F. exact H1.
+      * apply (ext_seteq s F (restr (args F) (restr (concat (map args r)) S))); [|apply Hr; exact HF].
+        apply restr_restr_sub. intros a Ha. exact (in_concat_map_args r F a HF Ha).
+    + intros [Hi Hall]. split; [exact Hi|]. split; [apply Hall; left; reflexivity|].
+      split; [apply restr_incl_l|]. intros F HF.
+      apply (ext_seteq s F (restr (args F) S)); [|apply Hall; right; exact HF].
+      apply seteq_sym. apply restr_restr_sub. intros a Ha. exact (in_concat_map_args r F a HF Ha).
+Qed.
